@@ -1253,16 +1253,16 @@ impl FatVolume {
                 }
                 Err(Error::EndOfFile) => {
                     self.update_fat(block_cache, next, ClusterId::EMPTY)?;
-                    if let Some(ref mut number_free_cluster) = self.free_clusters_count {
-                        *number_free_cluster += 1;
-                    };
+                    self.free_clusters_count = self
+                        .free_clusters_count
+                        .and_then(|number_free_cluster| number_free_cluster.checked_add(1));
                     break;
                 }
                 Err(e) => return Err(e),
             }
-            if let Some(ref mut number_free_cluster) = self.free_clusters_count {
-                *number_free_cluster += 1;
-            };
+            self.free_clusters_count = self
+                .free_clusters_count
+                .and_then(|number_free_cluster| number_free_cluster.checked_add(1));
         }
         Ok(())
     }
@@ -1283,9 +1283,9 @@ impl FatVolume {
         // free everything after the first cluster, then the first cluster
         self.truncate_cluster_chain(block_cache, cluster)?;
         self.update_fat(block_cache, cluster, ClusterId::EMPTY)?;
-        if let Some(ref mut number_free_cluster) = self.free_clusters_count {
-            *number_free_cluster += 1;
-        };
+        self.free_clusters_count = self
+            .free_clusters_count
+            .and_then(|number_free_cluster| number_free_cluster.checked_add(1));
         match self.next_free_cluster {
             Some(next_free_cluster) if next_free_cluster.0 <= cluster.0 => {}
             _ => self.next_free_cluster = Some(cluster),
